@@ -68,6 +68,9 @@ def runSeq (r : Report) (s : Section) (kind : String) (n : Nat) : Report := Id.r
   for l in s.lines do
     r := { r with ops := r.ops + 1 }
     let impl := joinSp l.obs
+    if impl = "leaked" ∨ impl = "stuck" then
+      -- the harness gave up waiting: the permit of an ended holder never came back / a blocked call never resumed
+      r := r.violation s.idx l.idx s!"kind={kind} op=[{joinSp l.op}] impl=[{impl}] capacity leaked: the permit of an ended holder was not released"
     match seqExpected kind sem l.op with
     | none => r := r.mismatch s.idx l.idx "bad-op" (joinSp l.op)
     | some (sem', exp, br) =>
@@ -166,7 +169,10 @@ def runConc (r : Report) (s : Section) (kind : String) (n : Nat) : Report := Id.
   for l in s.lines do
     r := { r with ops := r.ops + 1 }
     match l.op.head? with
-    | some "run" => r := runHistory r s.idx l.idx kind n l.obs
+    | some "run" =>
+      if l.obs.head? = some "stuck" then
+        r := r.violation s.idx l.idx s!"kind={kind} the run did not terminate ({joinSp l.obs}): holders ended but their permits / wait-group counts never came back"
+      else r := runHistory r s.idx l.idx kind n l.obs
     | some "rogue" => r := runRogue r s.idx l.idx kind n l.obs
     | _ => r := r.mismatch s.idx l.idx "bad-op" (joinSp l.op)
   return r
@@ -213,6 +219,9 @@ def runPoolSeq (r : Report) (s : Section) (limit maxAge : Nat) : Report := Id.ru
         | some i, some dl =>
           evs := dl.map PEv.destroy ++ (if fr = "fresh=1" then [PEv.create i] else []) ++ [PEv.get 0 i]
         | _, _ => r := r.mismatch s.idx l.idx "parsable-observation" impl
+      | ["stuck"] =>
+        if !breached then
+          r := r.violation s.idx l.idx s!"kind=pool Get waits for ever although only {mon.held.length} of limit={limit} resources are in use (capacity leaked)"
       | ["wait"] =>
         if mon.held.length < limit ∧ !breached then
           r := r.violation s.idx l.idx s!"kind=pool Get would wait although only {mon.held.length} of limit={limit} resources are in use"
@@ -319,7 +328,10 @@ def runPoolConc (r : Report) (s : Section) (limit : Nat) : Report := Id.run do
   for l in s.lines do
     r := { r with ops := r.ops + 1 }
     match l.op.head? with
-    | some "run" => r := runPoolHistory r s.idx l.idx limit l.obs
+    | some "run" =>
+      if l.obs.head? = some "stuck" then
+        r := r.violation s.idx l.idx "kind=pool the run did not terminate: users wait for resources although all were put back"
+      else r := runPoolHistory r s.idx l.idx limit l.obs
     | _ => r := r.mismatch s.idx l.idx "bad-op" (joinSp l.op)
   return r
 
